@@ -404,6 +404,18 @@ def _witness_table(ctx, f, rows):
         br = {k: v for k, v in rows.items() if k.startswith("BRANCH") and bit in k}
         if not br or any("yield descend:%s:K[1:]" % role not in " ".join(v) for v in br.values()):
             problems.append("branch node %s: expected `yield node` then descent into %s with K[1:]: %s" % (bit, role, {k: sorted(v) for k, v in br.items()}))
+    # the node the walk stands on belongs to the witness whatever the comparison says: a reader of the witness
+    # has to load it to find out that the key diverges
+    for k, v in sorted(rows.items()):
+        kind = k.split(":")[0]
+        if kind not in ("KV", "BRANCH"):
+            continue
+        for o in sorted(v):
+            a = o.split()
+            if a and a[0].startswith("raise"):
+                continue
+            if not (a and (a[0] == "yield" or (a[0] == "subtrie:SELF:-" and "empty" in k.split(":")))):
+                problems.append("case %s ends with `%s`: the %s node reached by the walk is not part of the witness (sibling _get_branch yields the node before it compares)" % (k, o, kind.lower()))
     if problems:
         ctx.bad(c, f.loc(), problems[0], witness={"problems": problems, "table": {k: sorted(v) for k, v in rows.items()}})
     else:
@@ -638,16 +650,33 @@ def route2(ctx, pid):
         if len(calls) != 1:
             ctx.bad(cst, f.loc(), "expected exactly one call of _set, found %d" % len(calls))
             continue
-        st = __import__("pta.sym", fromlist=["State"]).State()
         amap = ctx.E.bind_args(calls[0], setf, skip_self=True)
-        got = {}
-        for pn in ("node_hash", "keypath", "value", "if_delete_subtrie"):
-            a = amap.get(pn)
-            if a is None:
-                d = setf.defaults().get(pn)
-                got[pn] = eng.ev(d, setf, st) if d is not None else None
-            else:
-                got[pn] = eng.ev(a, f, st)
+        # the arguments as evaluated on the paths that reach the call (locals holding the encoded key etc.)
+        gots = []
+        for p_, st_ in pq.states(ctx, f):
+            evs = [ev for ev in st_.events if ev.k == "call" and ev.node is calls[0]]
+            if not evs:
+                continue
+            ct = st_.cterms.get(id(calls[0]))
+            if ct is None or ct[0] != "call" or len(ct[2]) < 1:
+                continue
+            pos = list(ct[2][1:])
+            kws = dict(ct[3]) if len(ct) > 3 and ct[3] else {}
+            g_ = {}
+            for i_, pn in enumerate(("node_hash", "keypath", "value", "if_delete_subtrie")):
+                if i_ < len(pos):
+                    g_[pn] = pos[i_]
+                elif pn in kws:
+                    g_[pn] = kws[pn]
+                else:
+                    d = setf.defaults().get(pn)
+                    g_[pn] = eng.ev(d, setf, __import__("pta.sym", fromlist=["State"]).State()) if d is not None else None
+            if g_ not in gots:
+                gots.append(g_)
+        if len(gots) != 1:
+            ctx.unsure(cst, f.loc(calls[0]), "the arguments of _set differ between paths (%d forms)" % len(gots))
+            continue
+        got = gots[0]
         probs = []
         if got["node_hash"] != ("attr", ("self",), "root_hash"):
             probs.append("starts at `%s`, not at self.root_hash" % tstr(got["node_hash"]))
